@@ -130,6 +130,61 @@ def run_conf(c):
         pb.cpu_count = REAL_CPU
 
 
+def run_custom1(c):
+    """{"mode":"custom1","via":"instance"|"name"|"config","workers":k,"n_jobs":n}: a user-defined backend whose configure()
+    returns k; with k = 1 the tasks must run in the CALLING thread (never through submit)"""
+    import queue
+
+    class OneWorker(pb.ParallelBackendBase):
+        supports_retrieve_callback = True
+        submitted = 0
+
+        def configure(self, n_jobs=1, parallel=None, **kw):
+            self.parallel = parallel
+            return c["workers"]
+
+        def effective_n_jobs(self, n_jobs):
+            return c["workers"]
+
+        def submit(self, func, callback=None):
+            type(self).submitted += 1
+            box = queue.Queue()
+
+            def work():
+                try:
+                    box.put(("ok", func()))
+                except BaseException as e:  # noqa
+                    box.put(("err", e))
+                if callback is not None:
+                    callback(box)
+            threading.Thread(target=work).start()
+            return box
+
+        def retrieve_result_callback(self, out):
+            kind, v = out.get()
+            if kind == "err":
+                raise v
+            return v
+
+    def task():
+        return threading.get_ident()
+    joblib.register_parallel_backend("verif_oneworker", OneWorker)
+    kw = {"n_jobs": c["n_jobs"]}
+    if c["via"] == "instance":
+        kw["backend"] = OneWorker()
+    elif c["via"] == "name":
+        kw["backend"] = "verif_oneworker"
+    import contextlib
+    cm = joblib.parallel_config(backend="verif_oneworker") if c["via"] == "config" else contextlib.nullcontext()
+    try:
+        with cm:
+            idents = joblib.Parallel(**kw)(joblib.delayed(task)() for _ in range(4))
+    except Exception as e:  # noqa
+        return {"raise": type(e).__name__}
+    me = threading.get_ident()
+    return {"ok": [1 if i == me else 0 for i in idents], "submitted": OneWorker.submitted}
+
+
 def run_cpu_child(c, wfd):
     import io
     os_mod = lctx.os
@@ -198,7 +253,7 @@ for line in sys.stdin:
         continue
     c = json.loads(line)
     try:
-        r = {"eff": run_eff, "api": run_api, "cpu": run_cpu, "nested": run_nested, "conf": run_conf}[c["mode"]](c)
+        r = {"eff": run_eff, "api": run_api, "cpu": run_cpu, "nested": run_nested, "conf": run_conf, "custom1": run_custom1}[c["mode"]](c)
     except BaseException as e:
         r = {"harness_error": repr(e)}
     OUT.write(json.dumps(r) + "\n")
